@@ -198,6 +198,72 @@ func c01zeroRunCase(c *vf.Ctx, i int) {
 	}
 }
 
+// c01lookalikeCase: legacy addresses whose Base58 string consists only of
+// characters of the CashAddr alphabet in a single case (constructed: the
+// high digits are chosen, the last six depend on the checksum and are
+// searched; about 1e-9 per random hash).  Such a string passes every
+// syntactic CashAddr test and fails only the CashAddr checksum; it is still
+// the legacy address of its hash and must decode as such.
+func c01lookalikeCase(c *vf.Ctx, i int) {
+	net := allNets[i%len(allNets)]
+	k := c01kinds[6+(i/len(allNets))%2] // LEGACY-P2PKH, LEGACY-P2SH
+	ver := net.P.LegacyPubKeyHashAddrID
+	if k.name == "LEGACY-P2SH" {
+		ver = net.P.LegacyScriptHashAddrID
+	}
+	set := "qpzry9x8gf2tvdws3jn54khce6mua7" // CashAddr alphabet without '0' and 'l' (not Base58 digits)
+	if (i/(2*len(allNets)))%2 == 1 {
+		set = "QPZRY9X8GF2TVDWS3JN54KHCE6MUA7L"
+	}
+	in := func(s string, from int) bool {
+		for j := from; j < len(s); j++ {
+			if strings.IndexByte(set, s[j]) < 0 {
+				return false
+			}
+		}
+		return true
+	}
+	var h []byte
+	var want string
+	for tries := 0; tries < 20000 && h == nil; tries++ {
+		s0 := ref.B58CheckEncode(ver, c.R.Bytes(20))
+		t := []byte(s0)
+		for j := 2; j < len(t); j++ { // the first two digits follow the version byte
+			t[j] = set[c.R.Intn(len(set))]
+		}
+		raw, ok := ref.B58Decode(string(t))
+		if !ok || len(raw) != 25 || raw[0] != ver {
+			continue
+		}
+		w := ref.B58CheckEncode(ver, raw[1:21])
+		if in(w, 2) {
+			h, want = raw[1:21], w
+		}
+	}
+	if h == nil {
+		c.Inc("lookalike_construction_failed")
+		return
+	}
+	a, err := k.mk(h, net.P)
+	if err != nil {
+		c.Failf("construct/"+k.name+"/error", "hash=%x: %v", h, err)
+		return
+	}
+	c.Evals(1)
+	c.Inc("legacy_addresses_of_cashaddr_characters_only_after_the_first_two")
+	if in(want, 0) {
+		c.Inc("legacy_addresses_of_cashaddr_characters_only")
+	}
+	c.Nontrivial(vf.Mix(10, vf.HashString(want)))
+	if enc := a.EncodeAddress(); enc != want {
+		c.Failf("EncodeAddress/"+k.name+"/spec-string", "kind=%s net=%s hash=%x: EncodeAddress()=%q, specification prescribes %q", k.name, net.Name, h, enc, want)
+	}
+	c01checkDecoded(c, k.name, net, "exact", want, a, want, h, true)
+	if c.WantSample() {
+		c.Sample(map[string]string{"kind": k.name, "net": net.Name, "hash": hx(h), "string_of_cashaddr_characters": want})
+	}
+}
+
 func c01scriptCase(c *vf.Ctx, i int) {
 	var script []byte
 	if i <= 520 {
@@ -481,7 +547,7 @@ func init() {
 		ID:    "C01",
 		Title: "Every constructible address survives encode -> decode unchanged",
 		Rule: "stream hashes: directed hashes (all-zero, all-ones, 1..n-1 leading zero bytes, every single set bit, every single clear bit) then seeded random hashes, each under all 8 hash kinds x 6 nets x 4 renderings; " +
-			"stream pubkeys-dual-valid: public keys constructed (meet in the middle on the affine checksum) so that their hex is also a checksum-valid CashAddr payload of the net; stream legacy-zero-digit-runs: legacy addresses constructed so that their Base58 string has ten zero digits in the middle; stream scripts: script lengths 0..520 then random; stream pubkeys: scalars 1..16, n-16..n-1, leading-zero scalars, random, x 3 serialisations x 6 nets x 2 hex cases; stream pubkeys-cashaddr-charset: points whose compressed hex lies inside the CashAddr alphabet (the decoder first tries them as cash addresses). " +
+			"stream pubkeys-dual-valid: public keys constructed (meet in the middle on the affine checksum) so that their hex is also a checksum-valid CashAddr payload of the net; stream legacy-zero-digit-runs: legacy addresses constructed so that their Base58 string has ten zero digits in the middle; stream legacy-cashaddr-lookalikes: legacy addresses constructed so that their Base58 string consists of CashAddr-alphabet characters in one case only; stream scripts: script lengths 0..520 then random; stream pubkeys: scalars 1..16, n-16..n-1, leading-zero scalars, random, x 3 serialisations x 6 nets x 2 hex cases; stream pubkeys-cashaddr-charset: points whose compressed hex lies inside the CashAddr alphabet (the decoder first tries them as cash addresses). " +
 			"A case is non-trivial and distinct per (kind, net, payload).",
 		Assumptions: []string{
 			"reference CashAddr / Base58Check encoders written from the specifications (self-tested on the specifications' vectors on every run)",
@@ -502,6 +568,7 @@ func init() {
 			{Name: "pubkeys", N: func(t vf.Tier) int { return 64 + t.Sz(2000, 30000) }, Run: c01pubkeyCase},
 			{Name: "pubkeys-dual-valid", Init: c01dualInit, N: func(t vf.Tier) int { return t.Sz(36, 72) }, Run: c01pubkeyDualCase},
 			{Name: "legacy-zero-digit-runs", N: func(t vf.Tier) int { return t.Sz(600, 12000) }, Run: c01zeroRunCase},
+			{Name: "legacy-cashaddr-lookalikes", N: func(t vf.Tier) int { return t.Sz(480, 9600) }, Run: c01lookalikeCase},
 			{Name: "pubkeys-cashaddr-charset", N: func(t vf.Tier) int { return t.Sz(400, 6000) }, Run: c01pubkeyCharsetCase},
 		},
 	})
